@@ -37,6 +37,9 @@ type c17Case struct {
 	Defined         bool   `json:"defined,omitempty"`                     // the variable is set (possibly to the empty string) in some layer
 	NameInLaterDoc  bool   `json:"name_in_later_document,omitempty"`      // `name:` sits in a second `---` document of its file
 	RepeatFirst     bool   `json:"repeat_first_env_file,omitempty"`       // the .env files are given as [one, two, one]: the last mention counts
+	// loader steps the caller switches off (0 none | 1 normalization | 2 consistency | 3 path resolution | 4 normalization
+	// and consistency): the name and the environment are settled before any of them
+	StepsOff        int    `json:"steps_off,omitempty"`
 	NoWorkDirOption bool   `json:"no_working_directory_option,omitempty"` // the project directory is not given: it is the first compose file's; later files live elsewhere
 }
 
@@ -270,6 +273,9 @@ func buildC17(dir string, explicit int, cpnSrc int, cpnValid bool, fileCfg int, 
 	cs.NoWorkDirOption = len(emptyTop) > 3 && emptyTop[3]
 	cs.RepeatFirst = len(emptyTop) > 2 && emptyTop[2] && !refFromDot && !defaultEnv && len(dot1) > 0 && len(dot2) > 0
 	cs.reference(dot1, dot2)
+	if h := len(dir) + 3*explicit + 5*cpnSrc + 7*fileCfg + 11*varMask; h%3 == 0 {
+		cs.StepsOff = 1 + (h/3)%4
+	}
 	return cs
 }
 
@@ -369,6 +375,19 @@ func c17Check(c *Ctx, cs c17Case) *Failure {
 	if cs.ExplicitName != "" && !cs.NameFirst {
 		opts = append(opts, cli.WithName(cs.ExplicitName))
 	}
+	switch cs.StepsOff {
+	case 1:
+		opts = append(opts, cli.WithNormalization(false))
+	case 2:
+		opts = append(opts, cli.WithConsistency(false))
+	case 3:
+		opts = append(opts, cli.WithResolvedPaths(false))
+	case 4:
+		opts = append(opts, cli.WithNormalization(false), cli.WithConsistency(false))
+	}
+	if cs.StepsOff != 0 {
+		c.Label(fmt.Sprintf("steps-off:%d", cs.StepsOff))
+	}
 	c.Label("why:" + cs.Why)
 	c.NonTrivial(jsonKey(cs), cs)
 	where := fmt.Sprintf("dir=%q explicit=%q explicitEnv=%v osEnv=%v dotenv1=%q dotenv2=%q default.env=%v names=%q", cs.DirName, cs.ExplicitName, cs.ExplicitEnv, cs.OSEnv, cs.DotEnv1, cs.DotEnv2, cs.DefaultEnv, cs.FileNames)
@@ -414,7 +433,10 @@ func c17Check(c *Ctx, cs c17Case) *Failure {
 				mLabels, _ = svc["labels"].(map[string]any)
 			}
 		}
-		if m["name"] != p.Name || fmt.Sprint(mLabels["name"]) != gotLabel || (cs.HasVal && fmt.Sprint(mLabels["val"]) != gotVal) {
+		// (without normalization the untyped model keeps the `name:` entry as the files give it: the name is settled
+		// in the options and the typed project, so only the interpolated labels are compared then)
+		rawName := cs.StepsOff == 1 || cs.StepsOff == 4
+		if (!rawName && m["name"] != p.Name) || fmt.Sprint(mLabels["name"]) != gotLabel || (cs.HasVal && fmt.Sprint(mLabels["val"]) != gotVal) {
 			return failf("c17:load-model-differs", "%s: LoadProject gives name %q and labels %v, LoadModel with the same options gives name %v and labels %v", where, p.Name, p.Services["svc0"].Labels, m["name"], mLabels)
 		}
 		return nil
